@@ -95,6 +95,15 @@ DateAdd(o, k, i) == CASE i = "D" -> o + k [] i = "W" -> o + 7 * k [] i = "M" -> 
 AbsI(x) == IF x < 0 THEN -x ELSE x
 DateDiff(a, b) == AbsI(a - b)
 
+\* duration conversions (VTL 2.1: a year of a duration is 365 days, a month 30 days): daytoyear(n) = PyYdD,
+\* daytomonth(n) = PmMdD as <<whole, rest>>; yeartoday / monthtoday are their inverses
+DayToYear(n) == <<n \div 365, n % 365>>
+DayToMonth(n) == <<n \div 30, n % 30>>
+YearToDay(d) == d[1] * 365 + d[2]
+MonthToDay(d) == d[1] * 30 + d[2]
+DurationRoundTrip(n) == YearToDay(DayToYear(n)) = n /\ MonthToDay(DayToMonth(n)) = n
+                        /\ DayToYear(n)[2] < 365 /\ DayToMonth(n)[2] < 30
+
 (* Theorems checked by TLC in GenCalendar for every year of the configured range *)
 W53Iff(y) == ValidPeriod(<<y, "W", 53>>) <=> IsoWeeksInYear(y) = 53
 D366Iff(y) == ValidPeriod(<<y, "D", 366>>) <=> IsLeap(y)
